@@ -18,29 +18,53 @@ import threading
 import time
 
 
+class SchedAbandoned(BaseException):
+    pass
+
+
 class CoopLock(object):
     """Cooperative proxy for a threading.Lock / RLock used by the code under test."""
 
     def __init__(self, real, name):
         self._real = real
         self._name = name
+        self._factory = threading.RLock if isinstance(real, type(threading.RLock())) else threading.Lock
         self.ctl = None
         self.contended = 0
+        self.gen = 0
+
+    def renew(self):
+        """A fresh real lock (between runs): a lock left held by an abandoned thread of an earlier run must not block the
+        next one; threads still waiting on the old one are told to give up."""
+        self.gen += 1
+        self._real = self._factory()
 
     def acquire(self, blocking=True, timeout=-1):
         if self._real.acquire(False):
             return True
         if not blocking:
             return False
+        if timeout is not None and timeout >= 0:
+            # a timed wait: under the controller the holder is a pre-empted thread that may stay descheduled longer than any
+            # timeout, so the wait is allowed to fail at once (the caller's failure path is part of the code under test);
+            # free-running threads really wait
+            if self.ctl is not None and not self.ctl.free_run:
+                self.ctl.lock_waits += 1
+                self.timed_out = getattr(self, 'timed_out', 0) + 1
+                return False
+            return self._real.acquire(True, timeout)
         ctl = self.ctl
         tid = getattr(_local, 'tid', None)
+        gen = self.gen
         while True:
+            if self.gen != gen:
+                raise SchedAbandoned('the run this thread belonged to is over')
             if ctl is not None and tid is not None and not ctl.free_run:
                 self.contended += 1
                 ctl.lock_waits += 1
                 ctl.yield_blocked(tid)
             else:
-                time.sleep(0)
+                time.sleep(0 if ctl is not None else 0.01)     # an abandoned (deadlocked) thread must not eat a core
             if self._real.acquire(False):
                 return True
 
@@ -260,8 +284,16 @@ class Controller(object):
             self.current = 0
             self.cv.notify_all()
         deadline = time.time() + timeout
-        for t in ths:
-            t.join(max(0.0, deadline - time.time()))
+        freed_at = None
+        while any(t.is_alive() for t in ths) and time.time() < deadline:
+            for t in ths:
+                t.join(0.05)
+            # once the progress watchdog has let every thread run freely, a thread that is still not done a few seconds
+            # later is blocked for good (a lock that was never released): do not sit out the whole timeout
+            if self.free_run:
+                freed_at = freed_at or time.time()
+                if time.time() - freed_at > 4.0:
+                    break
         alive = [i for i, t in enumerate(ths) if t.is_alive()]
         for l in self.locks + RUNTIME['locks']:
             l.ctl = None
